@@ -7,7 +7,8 @@ LEVEL = 'exploration'
 RULE = ('diffs of code snippets in 18 languages x pairs of syntax themes of the same light/dark class (and "none") x hunk style '
         'slots randomly with/without the "syntax" foreground x unified/side-by-side; cell-by-cell comparison of the two runs; '
         'plus the same diff under two file names of the same kind; plus the same section (git or plain "diff -u" form, 0..3 context lines) '
-        'between two different pairs of neighbouring sections in other languages, whose rows must not change; distinct = (language, theme pair, which slots are syntax, '
+        'between two different pairs of neighbouring sections in other languages, whose rows must not change; plus the same code as '
+        'rg --json / git grep hits and as blame lines under two file names of the same kind with different directories; distinct = (language, theme pair, which slots are syntax, '
         'view, sub-check); non-trivial = at least one cell differs in foreground between the two themes (theme check) / '
         'diff has highlighted cells (rename check)')
 ASSUMPTIONS = ['style slots are recognised by reserved background colours']
@@ -27,6 +28,8 @@ def plan(ctx):
         items.append(('rename', engine.stable_hash((ctx.seed, 'c15r', i))))
     for i in range(ctx.n(1200, 20000)):
         items.append(('neighbour', engine.stable_hash((ctx.seed, 'c15n', i))))
+    for i in range(ctx.n(800, 12000)):
+        items.append(('grep-blame-name', engine.stable_hash((ctx.seed, 'c15g', i))))
     return items
 
 
@@ -73,9 +76,80 @@ def decode_cells(out):
     return [[(c.ch, c.w, c.fg, c.bg, c.attrs, c.link) for c in r.cells] for r in term.decode(out)]
 
 
+def run_grep_blame_name(rng):
+    """grep hits and blame lines keep the directory in the path: two names of the same kind (Makefile / sub/Makefile, a.rs /
+    src/deep/lib.rs) must colour the same code the same way."""
+    from .. import corpus
+    lang = rng.choice(sorted(snippets.SNIPPETS))
+    names = snippets.NAMES[lang]
+    n1, n2 = rng.sample(names, 2) if len(names) >= 2 else (names[0], names[0])
+    code = [l for l in snippets.SNIPPETS[lang] if l.strip()][:rng.randint(2, 6)]
+    cls_dark = rng.random() < 0.6
+    theme = rng.choice(gen.THEMES_DARK if cls_dark else gen.THEMES_LIGHT)
+    how = rng.choice(['rg-json', 'rg-json', 'git-grep', 'blame'])
+    T = gen.TAGS
+    opts = {'--paging': 'never', '--true-color': 'always', '--syntax-theme': theme, '--dark' if cls_dark else '--light': True,
+            '--grep-match-line-style': 'syntax ' + T['grep_match_line'], '--grep-context-line-style': 'syntax ' + T['grep_context'],
+            '--grep-match-word-style': 'syntax ' + T['grep_match_word'], '--grep-file-style': T['grep_file'], '--grep-line-number-style': T['grep_ln'],
+            '--blame-code-style': 'syntax'}
+    if rng.random() < 0.5:
+        opts['--grep-output-type'] = rng.choice(['ripgrep', 'classic'])
+    outs = []
+    for name in (n1, n2):
+        if how == 'rg-json':
+            text = corpus.rg_json_text([(name, [(10 + i, 'match' if i % 2 == 0 else 'context', c, []) for i, c in enumerate(code)])])
+            r = runner.run_delta(gen.to_args(opts), text.encode())
+        elif how == 'git-grep':
+            text = ''.join('%s:%d:%s\n' % (name, 10 + i, c) for i, c in enumerate(code))
+            r = runner.run_delta(gen.to_args(opts), text.encode(), parent_argv=['git', 'grep', '-n', 'x'])
+        else:
+            text = ''.join('abcd%04d (Ann 2020-01-01 00:00:00 +0000 %d) %s\n' % (i // 2, i + 1, c) for i, c in enumerate(code))
+            r = runner.run_delta(gen.to_args(opts), text.encode(), parent_argv=['git', 'blame', name])
+        c = crash_outcome(r, ID)
+        if c is not None:
+            c['executions'] = 2
+            return c
+        if r.rc != 0:
+            return inconclusive('exit %d: %s' % (r.rc, r.err[:100]))
+        outs.append(r)
+    sets = {'languages': [lang], 'views': [how], 'sub': ['grep-blame-name']}
+    counters = {'cells_compared': 0, 'pairs': 1}
+
+    def code_cells(res):
+        rws = []
+        for rw in term.decode(res.out):
+            t = rw.text()
+            cells = [c_ for c_ in rw.cells]
+            if how == 'blame':
+                k = t.find('│')
+                k2 = t.find('│', k + 1)
+                cells = cells[k2 + 1:] if k >= 0 and k2 > k else cells
+            else:
+                cells = [c_ for c_ in cells if gen.TAG_BY_RGB.get(c_.bg) in ('grep_match_line', 'grep_context', 'grep_match_word')]
+            if cells:
+                rws.append([(c_.ch, c_.fg, c_.attrs) for c_ in cells])
+        return rws
+    a, b = code_cells(outs[0]), code_cells(outs[1])
+    hl = sum(1 for rw in a for c_ in rw if c_[1] is not None)
+    counters['cells_compared'] = sum(len(rw) for rw in a)
+    if a != b:
+        k = next((i for i in range(min(len(a), len(b))) if a[i] != b[i]), min(len(a), len(b)))
+        o = violated('c15:grep-blame-name:colouring-depends-on-directory', 'the same code is coloured differently for two file names of the same kind %r / %r in %s '
+                     'input (the language is not chosen from the file name alone)' % (n1, n2, how), repr(a[k][:6]) if k < len(a) else None,
+                     repr(b[k][:6]) if k < len(b) else None, run=outs[1], counters=counters, sets=sets)
+        o['executions'] = 2
+        return o
+    o = held(sig=('grep-blame-name', lang, how, n1, n2, theme), nontrivial=hl > 0, counters=counters, sets=sets,
+             sample={'sub': 'grep-blame-name', 'language': lang, 'input': how, 'names': [n1, n2], 'highlighted_cells': hl})
+    o['executions'] = 2
+    return o
+
+
 def run_item(item):
     kind, seed = item
     rng = engine.item_rng(seed)
+    if kind == 'grep-blame-name':
+        return run_grep_blame_name(rng)
     lang = rng.choice(sorted(snippets.SNIPPETS))
     names = snippets.NAMES[lang]
     opts, syn, fixed = slot_styles(rng)
